@@ -319,7 +319,16 @@ func c11r2(rc *core.RC) {
 					}
 					return true
 				})
-				if len(overwrite) == 0 || len(restores) == 0 {
+				if len(overwrite) == 0 {
+					continue
+				}
+				if len(restores) == 0 {
+					if ow0, ok := overwrite[0].(*ast.AssignStmt); ok {
+						if sel, ok := core.Unparen(ow0.Lhs[0]).(*ast.SelectorExpr); ok && pooledOwner(info, sel) == "" {
+							n++
+							rc.Bad(fmt.Sprintf("%s/save-restore %s", p.FuncName(fd), sv.path), ow0.Pos(), "%s is saved in %s and then overwritten, but never assigned back: the shared object stays modified after the call", sv.path, sv.old.Name())
+						}
+					}
 					continue
 				}
 				// per-call state of the pooled context is rewritten by every entry point (C11.R1): not shared across calls
